@@ -440,6 +440,30 @@ def e1d(fb, rep):
         else:
             rep.violation(R, "unregistered-handle|%s" % b.id, "%s builds a RootedValue without registering its value as a root" % b.id, b.where())
     rep.floor(R, "constructors of RootedValue", n, 2)
+    # identity means address: every pointer-carrying representation is compared with GcPtr::ptr_eq (two equal strings are two
+    # objects; comparing contents would un-root the wrong one)
+    oe = fb.body("gluon_vm::value::Value::obj_eq")
+    if oe is None:
+        rep.anchor_lost(R, "Value::obj_eq")
+    else:
+        a = fb.adts.get("gluon_vm::value::ValueRepr")
+        types = a["_crate"].types
+        ptr_variants = [v["name"] for v in a["variants"] if any("GcPtr<" in types[f["ty"]]["s"] or "GcStr" in types[f["ty"]]["s"] for f in v["fields"])]
+        ptr_eqs = {oe.tstr(c.desc["ga"][0]) for c in oe.calls() if c.res.endswith("GcPtr::<T>::ptr_eq") and c.desc.get("ga")}
+        content = [c for c in oe.calls() if (c.fn or "").endswith("PartialEq::eq") and any(
+            ("GcPtr" in oe.tstr(g) or "GcStr" in oe.tstr(g) or "ValueStr" in oe.tstr(g) or "str" == oe.tstr(g).lstrip("&")) for g in c.desc.get("ga", []))]
+        allowed = ("Value::get_repr", "mem::discriminant", "PartialEq::ne", "PartialEq::eq", "GcPtr::<T>::ptr_eq", "panicking::panic", "panicking::unreachable_display",
+                   "panicking::panic_fmt")
+        extra = [c for c in oe.calls() if not any((c.fn or c.res).endswith(x) or c.res.endswith(x) for x in allowed)]
+        if extra:
+            rep.violation(R, "identity-extra-clause", "Value::obj_eq is no longer a pure address / primitive comparison (calls %s)" % sorted({c.res for c in extra})[:3], extra[0].where())
+        elif content:
+            rep.violation(R, "identity-by-content", "Value::obj_eq compares a heap representation by content (%s): dropping one host handle can remove the root of another, "
+                          "equal but distinct, object" % [oe.tstr(g) for g in content[0].desc.get("ga", [])][:2], content[0].where())
+        elif len(ptr_eqs) >= len(ptr_variants):
+            rep.ok(R, "Value::obj_eq: all %d pointer-carrying representations are compared with GcPtr::ptr_eq" % len(ptr_variants))
+        else:
+            rep.violation(R, "identity-not-by-address", "Value::obj_eq uses GcPtr::ptr_eq for %d of the %d pointer-carrying representations" % (len(ptr_eqs), len(ptr_variants)), oe.where())
     # Drop unroots
     d = [b for b in fb.bodies.values() if b.get("impl_trait") == "core::ops::drop::Drop" and b.get("name") == "drop" and "RootedValue<T>" in b.id]
     if d and any(c.res.endswith("::unroot_") for c in d[0].calls()):
